@@ -205,6 +205,7 @@ func Preset(prop string, adversarial bool, r *scen.Rand) *Params {
 		p.BadMatcherP = 0.5
 		p.Envs = allEnvs
 		p.UpdateOpt = 0.3
+		p.FaultP = 0.15 // a failing matcher is reported whatever state the disk is in
 		p.EditKinds = []string{"value"}
 		p.EditValueP = 0.4
 		p.ReplayP = 0.5
